@@ -13,22 +13,6 @@ import Gotree.Model.C15
 namespace Gotree.C15.Heap
 open Gotree Gotree.C15
 
-def Src.isFresh : Src → Bool
-  | .fresh _ => true
-  | .path _ => false
-
-/-- the operation writes only a cell allocated by the program -/
-def Op.freshTarget : Op → Bool
-  | .setData t _ => t.isFresh
-  | .setPtrs t _ => t.isFresh
-  | .alloc => true
-  | .copyData t _ => t.isFresh
-
-/-- … and stores only references to cells allocated by the program -/
-def Op.freshRefs : Op → Bool
-  | .setPtrs _ l => l.all Src.isFresh
-  | _ => true
-
 structure FInv (h0 h : H) : Prop where
   le : h0.next ≤ h.next
   old : ∀ a, a < h0.next → h.ptrs a = h0.ptrs a ∧ h.data a = h0.data a
@@ -151,76 +135,12 @@ theorem fresh_prog_disjoint (r : Addr) (os : List Op) (h0 : H)
   Every node of the copy takes 4 fresh cells (struct + 3 arrays), every branch 3 (struct,
   comment array, bitset). -/
 
-/-- what the table says about the three reference fields that CopyNode / CopyEdge may touch -/
-structure Plan where
-  nodeCommentShared : Bool
-  edgeCommentShared : Bool
-  bitsetShared : Bool
-  deriving DecidableEq, Repr
-
-def sharedIn (tb : Table) (owner name : String) : Bool :=
-  tb.any fun f => f.owner == owner && f.name == name && f.treat == .shared
-
-def planOf (tb : Table) : Plan :=
-  ⟨sharedIn tb "Node" "comment", sharedIn tb "Edge" "comment", sharedIn tb "Edge" "bitset"⟩
-
-/-- the reference stored in a copied field: the copy's own cell, or — `shared` — the source's cell,
-    found by navigating the source -/
-def refSrc (shared : Bool) (own : Nat) (srcPath : List Nat) : Src := if shared then .path srcPath else .fresh own
-
-/-- index, in the `neigh`/`br` slices of a source node, of its `i`-th child -/
-def slot (isRoot : Bool) (pp i : Nat) : Nat := if !isRoot && pp ≤ i then i + 1 else i
-
-/- `k` = next free fresh index; `sp` = path of the source node in the source heap; returns the
-   operations, the next free index, and the fresh index of the copied node.  `up` = fresh indexes
-   of the copy's parent node and of the branch that joins it (none at the root). -/
-mutual
-def copyNodeOps (pl : Plan) : T → List Nat → Bool → Option (Nat × Nat) → Nat → List Op × Nat
-  | .node _ pp kids, sp, isRoot, up, k =>
-    let me := k
-    let r := copyKidsOps pl kids sp isRoot pp 0 me (k + 4)
-    -- r = (ops of the children, next free index, (child node, branch) fresh indexes in order)
-    let neigh := (match up with | some (p, _) => [Src.fresh p] | none => []) ++ r.2.2.map (fun x => Src.fresh x.1)
-    let br := (match up with | some (_, e) => [Src.fresh e] | none => []) ++ r.2.2.map (fun x => Src.fresh x.2)
-    ([Op.alloc, Op.alloc, Op.alloc, Op.alloc,
-      Op.setPtrs (.fresh me) [refSrc pl.nodeCommentShared (me + 1) (sp ++ [0]), .fresh (me + 2), .fresh (me + 3)],
-      -- out.name = n.name; out.depth = n.depth; out.id = n.id  /  out.comment[i] = c
-      Op.copyData (.fresh me) (.path sp), Op.copyData (.fresh (me + 1)) (.path (sp ++ [0]))]
-      ++ r.1 ++
-     [Op.setPtrs (.fresh (me + 2)) neigh, Op.setPtrs (.fresh (me + 3)) br], r.2.1)
-def copyKidsOps (pl : Plan) : Kids → List Nat → Bool → Nat → Nat → Nat → Nat → List Op × Nat × List (Nat × Nat)
-  | [], _, _, _, _, _, k => ([], k, [])
-  | (_, t) :: rest, sp, isRoot, pp, i, parent, k =>
-    let j := slot isRoot pp i
-    let e := k          -- branch struct, k+1 its comment array, k+2 its bitset
-    let child := k + 3  -- the child's struct is the first cell `copyNodeOps` allocates
-    let c := copyNodeOps pl t (sp ++ [1, j]) false (some (parent, e)) (k + 3)
-    let r := copyKidsOps pl rest sp isRoot pp (i + 1) parent c.2
-    ([Op.alloc, Op.alloc, Op.alloc] ++ c.1 ++
-     -- (the child is allocated before the branch refers to it: `CopyNode(child)`, then `ConnectNodes`)
-     [Op.setPtrs (.fresh e) [.fresh parent, .fresh child,
-        refSrc pl.edgeCommentShared (e + 1) (sp ++ [2, j, 2]), refSrc pl.bitsetShared (e + 2) (sp ++ [2, j, 3])],
-      -- CopyEdge: length, support, pvalue, id, hashes…  /  the comments  /  the bitset
-      Op.copyData (.fresh e) (.path (sp ++ [2, j])), Op.copyData (.fresh (e + 1)) (.path (sp ++ [2, j, 2])),
-      Op.copyData (.fresh (e + 2)) (.path (sp ++ [2, j, 3]))]
-      ++ r.1, r.2.1, (child, e) :: r.2.2)
-end
-
-/-- `Clone` / `SubTree(n)`: the copy of what hangs below the source node at path `sp` -/
-def cloneOpsAt (tb : Table) (t : T) (sp : List Nat) (srcIsRoot : Bool) : List Op :=
-  (copyNodeOps (planOf tb) t sp srcIsRoot none 0).1
-
-/-- … when the source node is the root of its tree (`Clone`; `SubTree(root)`) -/
-def cloneOps (tb : Table) (t : T) (sp : List Nat) : List Op := cloneOpsAt tb t sp true
-
 theorem refSrc_fresh (own : Nat) (p : List Nat) : (refSrc false own p).isFresh = true := by simp [refSrc, Src.isFresh]
 
 theorem all_fresh_map {α : Type} (l : List α) (f : α → Nat) : (l.map fun x => Src.fresh (f x)).all Src.isFresh = true := by
   induction l with
   | nil => rfl
   | cons a r ih => simp [Src.isFresh, ih]
-
-def Plan.none : Plan := ⟨false, false, false⟩
 
 mutual
 theorem copyNodeOps_fresh : ∀ (t : T) (sp : List Nat) (isRoot : Bool) (up : Option (Nat × Nat)) (k : Nat),
@@ -280,7 +200,6 @@ theorem sharedIn_false_of_fresh {tb : Table} {rf : RecurFacts} (h : allRefFields
   have hr := hk f hf ho.1 ho.2
   simp [hr, hs] at this
 
-
 theorem step_next_mono (r base : Addr) (h : H) (o : Op) : h.next ≤ (step r base h o).next := by
   cases o with
   | setData t v => simp only [step]; split <;> exact Nat.le_refl _
@@ -332,7 +251,6 @@ theorem clone_then_edit_frame (tb : Table) (hp : planOf tb = Plan.none) (t : T) 
   have f2 := progs_frame (r := src) (r' := cp) progs h1 hasrc hacp (disjoint_symm hd)
   exact ⟨⟨hs, hd⟩, ⟨f1.1, f1.2.2⟩, ⟨f2.1, f2.2.2⟩⟩
 
-
 /-- the same for `SubTree` at a node that is not the root of the source -/
 theorem subtree_then_edit_frame (tb : Table) (hp : planOf tb = Plan.none) (t : T) (sp : List Nat) (b : Bool)
     (src : Addr) (h0 : H) (hsrc : Alloc h0 src) (progs : List (H → List Op)) :
@@ -359,63 +277,5 @@ theorem subtree_then_edit_frame (tb : Table) (hp : planOf tb = Plan.none) (t : T
   exact ⟨⟨hs, hd⟩, ⟨f1.1, f1.2.2⟩, ⟨f2.1, f2.2.2⟩⟩
 
 /-! ## executable side: the model copy against the pointer graph the harness read off the real copy -/
-
-/-- a heap from a list of cells (address, reference fields); `next` = one past the largest address -/
-def ofCells (cells : List (Nat × List Nat)) : H :=
-  { ptrs := fun a => (cells.lookup a).getD [],
-    data := fun _ => 0,
-    next := (cells.foldl (fun m c => max m (c.1 + 1)) 0) }
-
-/-- are the structures reachable from `a` in `h` and from `b` in `g` the same up to renaming of cells?
-    (simultaneous traversal; `m` = pairs matched so far) -/
-def isoGo (h : H) (g : Nat → List Nat) : Nat → List (Addr × Nat) → List (Addr × Nat) → Option (List (Addr × Nat))
-  | 0, _, _ => none
-  | _ + 1, [], m => some m
-  | fuel + 1, (a, b) :: todo, m =>
-    match m.lookup a with
-    | some b' => if b' == b then isoGo h g fuel todo m else none
-    | none =>
-      if m.any (·.2 == b) then none
-      else
-        let pa := h.ptrs a
-        let pb := g b
-        if pa.length != pb.length then none
-        else isoGo h g fuel (pa.zip pb ++ todo) ((a, b) :: m)
-
-def isoFrom (h : H) (a : Addr) (cells : List (Nat × List Nat)) (b : Nat) : Bool :=
-  (isoGo h (fun x => (cells.lookup x).getD []) (4 * (cells.length + 2) * (cells.length + 2) + 16) [(a, b)] []).isSome
-
-/-- heap path of the node at child-index path `p` of the tree `t` hanging at heap path `sp` -/
-def heapPath : T → List Nat → List Nat → Bool → Option (List Nat × T × Bool)
-  | t, [], sp, isRoot => some (sp, t, isRoot)
-  | .node _ pp kids, i :: p, sp, isRoot =>
-    match kids[i]? with
-    | some (_, c) => heapPath c p (sp ++ [1, slot isRoot pp i]) false
-    | none => none
-
-
-/-- a heap from cells with their non-reference content -/
-def ofCellsD (cells : List (Nat × Nat × List Nat)) : H :=
-  { ptrs := fun a => ((cells.lookup a).map (·.2)).getD [],
-    data := fun a => ((cells.lookup a).map (·.1)).getD 0,
-    next := (cells.foldl (fun m c => max m (c.1 + 1)) 0) }
-
-/-- `isoGo` that also compares the content of matched cells -/
-def isoGoD (h : H) (g : Nat → Nat × List Nat) : Nat → List (Addr × Nat) → List (Addr × Nat) → Option (List (Addr × Nat))
-  | 0, _, _ => none
-  | _ + 1, [], m => some m
-  | fuel + 1, (a, b) :: todo, m =>
-    match m.lookup a with
-    | some b' => if b' == b then isoGoD h g fuel todo m else none
-    | none =>
-      if m.any (·.2 == b) then none
-      else
-        let pa := h.ptrs a
-        let pb := (g b).2
-        if pa.length != pb.length || h.data a != (g b).1 then none
-        else isoGoD h g fuel (pa.zip pb ++ todo) ((a, b) :: m)
-
-def isoFromD (h : H) (a : Addr) (cells : List (Nat × Nat × List Nat)) (b : Nat) : Bool :=
-  (isoGoD h (fun x => (cells.lookup x).getD (0, [])) (4 * (cells.length + 2) * (cells.length + 2) + 16) [(a, b)] []).isSome
 
 end Gotree.C15.Heap
